@@ -74,12 +74,11 @@ def sameFunctionUnder (b r : Arr) (g : Nat → Option Nat) : Bool := Id.run do
 
 def firstFail (xs : List (Option String)) : Option String := xs.findSome? id
 
-/-- `r` is a valid diagram over `m` variables, `r(v) = b(v ∘ g)` on all valuations of the first `N`
-    variables, and canonicity is kept -/
+/-- the statement's clauses: `r` is a valid diagram over `m` variables and `r(v) = b(v ∘ g)` on all valuations of
+    the first `N` variables -/
 def checkResult (b r : Arr) (m N : Nat) (g : Nat → Option Nat) : Option String :=
   firstFail [
     if wfoB r m then none else some "result-not-a-valid-diagram",
-    if b.size != r.size then some "size-changed" else none,
     if N > maxTT then
       (if N > 4096 then none else
         if isReduced b && isReduced r && !sameFunctionUnder b r g then some "function-changed(exact walk)" else
@@ -91,13 +90,20 @@ def checkResult (b r : Arr) (m N : Nat) (g : Nat → Option Nat) : Option String
       if (List.range (2 ^ N)).all fun i =>
         let v := valOfIndex N i
         evalArr r v == evalArr b (fun x => match g x with | some y => (decide (y < N) && v y) | none => false)
-      then none else some "function-changed",
-    if isCanon b && !isCanon r then some "canonicity-lost" else none ]
+      then none else some "function-changed" ]
+
+/-- not in the property's statement (it asks for a VALID diagram denoting the renamed function): same size and
+    kept canonicity are reported as tags and, through the model, as agreement -/
+def notesOf (b : Arr) (res : String) : List String :=
+  match parseArr? res with
+  | some r => (if b.size != r.size then ["note-size-changed"] else []) ++
+      (if isCanon b && !isCanon r then ["note-canonicity-lost"] else [])
+  | none => []
 
 def bigTag (b : Arr) : List String := if b.size > 65536 then ["big-operand"] else []
 
 def kindTag (obs : String) : String :=
-  if obs == "panic" then "panic" else if obs == "none" then "none" else "ok"
+  if obs == "panic" then "panic" else if obs == "none" then "none" else if obs == "hang" then "hang" else "ok"
 
 def inputTag (b : Arr) (n : Nat) : String :=
   if !wfoB b n then "invalid-input" else if isCanon b then "canonical"
@@ -119,7 +125,7 @@ def handle (key : String) (ins obs : List String) : Verdict :=
             checkResult b r nv (if max n nv ≤ maxTT then max n nv else n) (fun x => some x)]
         | none => if res == "panic" then none else some ("outcome:" ++ res)
       { agree := model == res, model, fail, nontrivial := valid && b.size > 2,
-        tags := ["setnv", kindTag res, inputTag b n] ++ bigTag b }
+        tags := ["setnv", kindTag res, inputTag b n] ++ bigTag b ++ notesOf b res }
     | _, _ => Verdict.bad "args"
   | "C17.renvars", [bs, ms], [res] =>
     match parseArr? bs, parseMap? ms with
@@ -134,7 +140,7 @@ def handle (key : String) (ins obs : List String) : Verdict :=
         | some r => checkResult b r n n (fun x => some (applyMap π x))
         | none => if res == "panic" then none else some ("outcome:" ++ res)
       { agree := model == res, model, fail, nontrivial := valid && b.size > 2,
-        tags := ["renvars", kindTag res, inputTag b n] ++ (if m.any (·.1 == n) then ["key-num_vars"] else []) ++ bigTag b }
+        tags := ["renvars", kindTag res, inputTag b n] ++ (if m.any (·.1 == n) then ["key-num_vars"] else []) ++ bigTag b ++ notesOf b res }
     | _, _ => Verdict.bad "args"
   | "C17.renvar", [bs, os, ns], [res] =>
     match parseArr? bs, os.toNat?, ns.toNat? with
@@ -148,7 +154,7 @@ def handle (key : String) (ins obs : List String) : Verdict :=
         | some r => checkResult b r n n (fun x => some (if x = old then new else x))
         | none => if res == "panic" then none else some ("outcome:" ++ res)
       { agree := model == res, model, fail, nontrivial := valid && b.size > 2,
-        tags := ["renvar", kindTag res, inputTag b n] ++ bigTag b }
+        tags := ["renvar", kindTag res, inputTag b n] ++ bigTag b ++ notesOf b res }
     | _, _, _ => Verdict.bad "args"
   | "C17.transfer", [bs, ss, ts], [res] =>
     match parseArr? bs with
@@ -177,7 +183,7 @@ def handle (key : String) (ins obs : List String) : Verdict :=
           if res == "none" then (if expectSome then some "refused-a-transferable-Bdd" else none)
           else some ("outcome:" ++ res)
       { agree := model == res, model, fail, nontrivial := applicable && b.size > 2,
-        tags := ["transfer", kindTag res, if applicable then inputTag b n else "inapplicable"] ++ bigTag b }
+        tags := ["transfer", kindTag res, if applicable then inputTag b n else "inapplicable"] ++ bigTag b ++ notesOf b res }
     | none => Verdict.bad "args"
   | _, _, _ => Verdict.bad ("key " ++ key)
 
